@@ -259,7 +259,7 @@ func c06Protected(c *Ctx, sx *symx.Ctx) {
 				}
 			}
 			readsOrig := false
-			ssau.ForEachInstr(cand, false, func(in ssa.Instruction) {
+			ssau.ForEachInstr(cand, lp == nil, func(in ssa.Instruction) {
 				switch x := in.(type) {
 				case *ssa.FieldAddr:
 					readsOrig = readsOrig || ssau.FieldName(x) == "isOriginal"
@@ -269,6 +269,9 @@ func c06Protected(c *Ctx, sx *symx.Ctx) {
 			})
 			if lp != nil && readsOrig {
 				ff, listP = cand, lp
+			}
+			if lp == nil && readsOrig && ff == nil && c06SplitCall(cand) != nil {
+				ff = cand // the prefix-split form: the scored list is a local
 			}
 		}
 	}
@@ -324,7 +327,11 @@ func c06Protected(c *Ctx, sx *symx.Ctx) {
 	if ff != nil {
 		fk2 = load.FuncKey(ff)
 	}
-	if r.Anchor("O-3", "database: function cutting the scored list to the cap ([]termWithScore ...) -> []string, reads isOriginal", ff != nil) {
+	if ff != nil && listP == nil {
+		// prefix-split form
+		ok, why := c06PrefixSplit(c, ff, fn, termsP, preserveP)
+		r.Check(ok, "O-3", fk2+"#every-original-kept", c.P.Pos(ff.Pos()), "the protected terms are a prefix of the scored list; everything before the first unprotected term is returned first", why)
+	} else if r.Anchor("O-3", "database: function cutting the scored list to the cap ([]termWithScore ...) -> []string, reads isOriginal", ff != nil) {
 		f := sx.Of(ff)
 		ls := ssau.RangeLoops(ff)
 		// the loop that appends item.term of the list built from isOriginal items
@@ -824,4 +831,197 @@ func c06AtLeastLimit(c *Ctx, v ssa.Value, isLimit func(ssa.Value) bool, d int) b
 		return some
 	}
 	return false
+}
+
+// c06SplitCall: the call slices.IndexFunc(L, func(x) bool { return !x.isOriginal }) in fn.
+func c06SplitCall(fn *ssa.Function) *ssa.Call {
+	var out *ssa.Call
+	ssau.ForEachInstr(fn, false, func(in ssa.Instruction) {
+		call, ok := in.(*ssa.Call)
+		if !ok || !strings.HasPrefix(ssau.CallName(call), "slices.IndexFunc") || len(call.Common().Args) != 2 {
+			return
+		}
+		var g *ssa.Function
+		switch x := call.Common().Args[1].(type) {
+		case *ssa.Function:
+			g = x
+		case *ssa.MakeClosure:
+			g, _ = x.Fn.(*ssa.Function)
+		}
+		if g == nil || g.Blocks == nil {
+			return
+		}
+		for _, ret := range ssau.ReturnsOf(g) {
+			not, ok := ssau.ResultValue(ret, 0).(*ssa.UnOp)
+			if !ok || not.Op != token.NOT {
+				return
+			}
+			if n, _ := lastSelector(not.X); n != "isOriginal" {
+				return
+			}
+		}
+		out = call
+	})
+	return out
+}
+
+// c06PrefixSplit: ff keeps the protected terms by cutting the scored list at
+// the first unprotected item: split := IndexFunc(L, !isOriginal) (len(L) when
+// there is none), kept := terms(L[:split]), and every result is kept extended
+// by appends or the terms of the whole list. That keeps every protected term
+// provided the protected items are a prefix of L, which holds when the
+// scoring function sets isOriginal to (i < preserveCount) for the index i of
+// its single in-order loop.
+func c06PrefixSplit(c *Ctx, ff, score *ssa.Function, termsP, preserveP *ssa.Parameter) (bool, string) {
+	sp := c06SplitCall(ff)
+	if sp == nil {
+		return false, "no cut of the scored list at the first unprotected term found"
+	}
+	L := sp.Common().Args[0]
+	isSplit := func(v ssa.Value) bool {
+		if v == ssa.Value(sp) {
+			return true
+		}
+		phi, ok := v.(*ssa.Phi)
+		if !ok {
+			return false
+		}
+		for _, e := range phi.Edges {
+			if e == ssa.Value(sp) {
+				continue
+			}
+			if lc, ok := e.(*ssa.Call); ok && ssau.CallName(lc) == "builtin.len" && lc.Common().Args[0] == L {
+				continue
+			}
+			return false
+		}
+		return true
+	}
+	// kept = flatten(L[:split])
+	var kept *ssa.Call
+	var flat *ssa.Function
+	ssau.ForEachInstr(ff, false, func(in ssa.Instruction) {
+		call, ok := in.(*ssa.Call)
+		if !ok || len(call.Common().Args) != 1 {
+			return
+		}
+		sl, ok := call.Common().Args[0].(*ssa.Slice)
+		if !ok || sl.X != L || sl.Low != nil || sl.High == nil || !isSplit(sl.High) {
+			return
+		}
+		if g := call.Common().StaticCallee(); g != nil && c06FlattensTerms(g) {
+			kept, flat = call, g
+		}
+	})
+	if kept == nil {
+		return false, "the items before the first unprotected one (L[:split]) are not turned into terms by a plain item.term loop"
+	}
+	for _, ret := range ssau.ReturnsOf(ff) {
+		v := ssau.ResultValue(ret, 0)
+		if call, ok := v.(*ssa.Call); ok && call.Common().StaticCallee() == flat && call.Common().Args[0] == L {
+			continue // the whole list
+		}
+		if v == ssa.Value(kept) {
+			continue
+		}
+		chain := v
+		for i := 0; i < 20; i++ {
+			call, ok := chain.(*ssa.Call)
+			if !ok || ssau.CallName(call) != "builtin.append" {
+				break
+			}
+			chain = call.Common().Args[0]
+		}
+		if chain != ssa.Value(kept) {
+			return false, "a result at " + c.P.Pos(ret.Pos()) + " is not the protected terms extended by appends"
+		}
+	}
+	// protected items are a prefix: isOriginal = (i < preserveCount)
+	if score == nil {
+		return false, "the function building the scored list was not found"
+	}
+	var loop *ssau.RangeLoop
+	ls := ssau.RangeLoops(score)
+	for i := range ls {
+		if ls[i].Over == ssa.Value(termsP) || ssau.ParamOf(ls[i].Over) == termsP {
+			loop = &ls[i]
+		}
+	}
+	if loop == nil {
+		return false, "no loop over the term list in the scoring function"
+	}
+	isGuard := func(v ssa.Value) bool {
+		op, x, y, ok := ssau.CondOf(v)
+		return ok && op == token.LSS && x == loop.Index && y == ssa.Value(preserveP)
+	}
+	cd := ssau.ControlDeps(score)
+	bad := ""
+	n := 0
+	ssau.ForEachInstr(score, false, func(in ssa.Instruction) {
+		st, ok := in.(*ssa.Store)
+		if !ok {
+			return
+		}
+		fa, ok := st.Addr.(*ssa.FieldAddr)
+		if !ok || ssau.FieldName(fa) != "isOriginal" {
+			return
+		}
+		n++
+		if isGuard(st.Val) {
+			return
+		}
+		if k, ok := st.Val.(*ssa.Const); ok && k.Value != nil {
+			want := k.Value.String() == "true"
+			for _, d := range ssau.TransitiveControlDeps(cd, st.Block()) {
+				if isGuard(d.If().Cond) && d.Then == want {
+					return
+				}
+			}
+		}
+		bad = "isOriginal stored at " + c.P.Pos(st.Pos()) + " is not (i < preserveCount): protected items need not be a prefix of the list, and the cut at the first unprotected item can drop them"
+	})
+	if bad != "" {
+		return false, bad
+	}
+	return n > 0, "no isOriginal store in the scoring function"
+}
+
+// c06FlattensTerms: g(list) ranges over its scored-list parameter and appends
+// item.term exactly once per item, unconditionally, returning that list.
+func c06FlattensTerms(g *ssa.Function) bool {
+	if g == nil || g.Blocks == nil || len(g.Params) != 1 {
+		return false
+	}
+	ls := ssau.RangeLoops(g)
+	if len(ls) != 1 || ls[0].IsMap || ls[0].Over != ssa.Value(g.Params[0]) && ssau.ParamOf(ls[0].Over) != g.Params[0] {
+		return false
+	}
+	var apps []*ssa.Call
+	ssau.ForEachInstr(g, false, func(in ssa.Instruction) {
+		if call, ok := in.(*ssa.Call); ok && ssau.CallName(call) == "builtin.append" {
+			apps = append(apps, call)
+		}
+	})
+	if len(apps) != 1 || !ls[0].InLoop(apps[0].Block()) {
+		return false
+	}
+	if n, _ := lastSelector(appendedSingle(apps[0])); n != "term" {
+		return false
+	}
+	eng := pathev.New(func(in ssa.Instruction) []string {
+		if in == ssa.Instruction(apps[0]) {
+			return []string{"append"}
+		}
+		return nil
+	}, nil)
+	m, _, ok := eng.Between(ls[0].Body, ls[0].Header)
+	if !ok || !m.Get("append").ExactlyOnce() {
+		return false
+	}
+	for _, ret := range ssau.ReturnsOf(g) {
+		if fa := firstAppend(ssau.ResultValue(ret, 0), 0); fa != apps[0] {
+			return false
+		}
+	}
+	return true
 }
